@@ -221,6 +221,13 @@ class Flow:
                 it, idx = c
                 return self.iter_atoms(it, idx, fn, bind, depth, _seen)
             return self._name_atoms(e.id, fn, bind, depth, _seen, e)
+        if isinstance(e, ast.Subscript) and not isinstance(
+                e.slice, (ast.Constant, ast.Slice)) and fn is not None:
+            # T[k] with T a table of constants and k a run-time key: one of
+            # the cells (the key selects, its text does not flow)
+            cv = self._const_table_cells(e.value, fn)
+            if cv is not None:
+                return cv
         if isinstance(e, (ast.Attribute, ast.Subscript)):
             if isinstance(e, ast.Subscript) and isinstance(
                     e.slice, ast.Constant) and isinstance(
@@ -314,6 +321,41 @@ class Flow:
         if isinstance(e, ast.NamedExpr):
             return A(e.value)
         return {unparse(e)}
+
+    def _const_table_cells(self, t, fn):
+        """{'const:..'} for every cell of a module-level or class-level
+        literal dict / tuple / list whose cells are all constants (`t` names
+        it as NAME, self.NAME or cls.NAME); None otherwise."""
+        v = None
+        try:
+            if isinstance(t, ast.Attribute) and isinstance(
+                    t.value, ast.Name) and t.value.id in ('self', 'cls'):
+                ci = fn.cls
+                if ci is None:
+                    for sc in self._scope_chain(fn):
+                        if sc.cls is not None:
+                            ci = sc.cls
+                            break
+                if ci is not None:
+                    owner, v = ci.find_attr(t.attr)
+                    if v is not None and t.attr not in owner.attrs:
+                        v = None
+            elif isinstance(t, ast.Name) and not self._is_local(t.id, fn) \
+                    and t.id not in Q.params(fn.node):
+                r = self.repo.resolve_symbol(fn.module.name, t.id)
+                if r is not None and r[0] == 'value':
+                    v = r[3]
+        except Exception:
+            return None
+        if isinstance(v, ast.Dict):
+            cells = v.values
+        elif isinstance(v, (ast.Tuple, ast.List)):
+            cells = v.elts
+        else:
+            return None
+        if not cells or not all(isinstance(c, ast.Constant) for c in cells):
+            return None
+        return {'const:' + repr(c.value) for c in cells}
 
     def _alloc(self, node, fn):
         """Identity of a fresh empty container (so that `x = []; f(x);
